@@ -18,19 +18,29 @@ import ctypes, struct, warnings, hashlib
 import lib, fatimg
 
 SPEC_THEOREMS = {
-    'geometry_spec': 'len img >= 90, 16/32-bit total in force: geometry_model img and Fat.Spec.geometry img both '
-                     'fail with ValueError or both succeed with equal type, FAT offset/size/count, root offset/size, '
-                     'data offset, cluster size, cluster count, root cluster (FAT32), info offset',
-    'geometry_short_spec': 'len img < 90: Spec.geometry rejects (the code may still accept from 62 bytes on)',
-    'open_model_ok': 'open_model img = OOk m <-> geometry_model img = Ok m and no table/probe hazard',
-    'cluster_offset_spec': 'cluster c of the model data area = Spec.cluster_bytes g img c = image bytes '
-                           '[data_off+(c-2)*cs, +cs) for 2 <= c < count+2, IndexError otherwise',
-    'read_refines': 'every finite sequence of seek/read/readinto/readall on a well-formed open file gives the '
-                    'results of the same sequence on the in-memory content with a plain position',
-    'raw_read_spec': 'a raw read returns a prefix of content[pos:] of length <= n, empty only if n = 0 or pos >= size',
-    'read_loop_refines': 'raw reads repeated until n bytes or EOF = content[pos:pos+n]',
-    'run_preserves_file': 'no operation changes map or size (and none returns a data area: read_no_write by typing)',
-    'timestamp_spec': 'decode_timestamp fields are the bit slices of date/time/cs',
+    'FatRead.ProofsGeom.geometry_spec':
+        'len img >= 90 and the 16/32-bit total in force (q_total_unused): geometry_model img and Fat.Spec.geometry img '
+        'both fail with ValueError or both succeed with equal type, FAT offset/size/count, root offset/size, data '
+        'offset, cluster size, data-cluster count, info offset, total, root cluster (FAT32)',
+    'FatRead.ProofsGeom.geometry_short_spec': 'len img < 90: Spec.geometry rejects',
+    'FatRead.ProofsGeom.geometry_short_model': 'the code accepts only from 62 bytes on, 90 when the FAT32 EBPB is used',
+    'FatRead.ProofsGeom.open_model_ok': 'open_model img = OOk m <-> geometry_model img = Ok m, no table hazard, no probe hazard',
+    'FatRead.ProofsGeom.open_model_exn': 'an exception of open_model that is not a hazard is the one of geometry_model',
+    'FatRead.ProofsGeom.cluster_offset_spec':
+        'FatClusters[c] over mem[data_offset:end_offset] = Spec.cluster_bytes g img c = image bytes '
+        '[data_off+(c-2)*cs, +cs) for 2 <= c < count+2, IndexError otherwise; len(FatClusters) = g_count',
+    'FatRead.ProofsRead.read_refines':
+        'cs > 0, clusters of the map in range, cs*len(map) >= size: EVERY finite sequence of seek/read/readinto/readall '
+        'gives, result by result, what ref_run gives on content = firstn size (concat clusters) with a plain position',
+    'FatRead.ProofsRead.raw_read_spec':
+        'a raw read returns content[pos:pos+m], m <= n, m = 0 iff n = 0 or pos >= size; position advances by m',
+    'FatRead.ProofsRead.read_loop_refines': 'raw reads repeated until n bytes or b"" = content[pos:pos+n]',
+    'FatRead.ProofsRead.readall_ok': 'readall = content[pos:], position max(pos, size)',
+    'FatRead.ProofsRead.run_preserves_file': 'no operation changes map or size, well-formed or not '
+                                             '(read_no_write itself holds by typing: no data area in any result type)',
+    'FatRead.ProofsTime.timestamp_spec': 'decode_timestamp fields = bit slices date[15:9]+1980, date[8:5], date[4:0], '
+                                         'time[15:11], time[10:5], 2*time[4:0] + cs*10//1000, (cs*10%1000)*1000',
+    'FatRead.ProofsTime.get_cluster_spec': 'lo < 65536: get_cluster = lo + 65536*hi on FAT32, lo otherwise',
 }
 TRUSTED = [
     'coq/FatRead/Model.v is a faithful transcription of fs.fat_type, fat_type_from_count, FatFileSystem.__init__ '
